@@ -80,7 +80,19 @@ RULE = ('Texts: 1-3 generated well-formed blocks (urgency comments, extra key=va
         'every block while iterating, plus Changelog-level calls; at least one str(cl) (25% of the formats: str(cl[i])) '
         'happens BEFORE a later edit, the text formatted there is checked as a normal form too, and the history ends with the '
         'usual final check; an enumerated matrix (irregular construct in block k) x (target block) x (each assignment / '
-        'add_change) x (edit | format,edit | edit,format,edit | block-format,edit,format,edit) x handle is run as well.')
+        'add_change) x (edit | format,edit | edit,format,edit | block-format,edit,format,edit) x handle is run as well.  '
+        'Formatting look-alike class: the tokens % %s %d %(x)s 100% %% { } {0} and a backslash (plus {} {x %(x %r \\1 '
+        '\\g<x> ${x} %c %*d {0.a} {:{w}}) occur (a) in well-formed texts and in the argument values of the editing calls - '
+        'spliced into 25% of the change lines, in half of the author names, a third of the mail addresses, urgency comments '
+        'and extra-pair values - and (b) in 19 additional junk classes, one per KIND of line the parser can report or accept: '
+        'rejected key=value pair, rejected urgency value, repeated key with the token in the values, accepted rich heading, '
+        'token in the version / package / heading without ";", one-space trailer (reported and accepted), regular trailer, '
+        'non-trailer " -- ..." lines, stray text, one-space / tab / non-ASCII lines, change lines, # /* */ $Id$ comments, '
+        'emacs / vim mode lines and old-format headings.  One spelling per token and class is enumerated alone, first, after '
+        'the heading, inside the changes, last, as the heading, as the trailer, in a non-last block and as the start of the '
+        'enumerated edit matrix; the random generators (one junk line in four) draw from the full template x token product; '
+        'own-heading variants append a look-alike pair / urgency value.  Counters fmt:reported:<site>:<percent|brace|backslash> '
+        'and fmt:reported-token:<token> are measured on the text of the warnings the live parser emitted.')
 ASSUMPTIONS = [
     'input texts are str (the constructor decodes bytes itself; undecodable bytes are outside "input text")',
     '"can be formatted" = str(changelog) does not raise ChangelogCreateError; such cases are skipped and counted',
@@ -106,6 +118,14 @@ ASSUMPTIONS = [
     'position (the block count is compared first)',
     'for multi-block texts nothing is demanded of the FIRST parse of an irregular text (which block a junk line lands in, '
     'whether blocks merge); only totality, strict/lenient agreement and the normal form of whatever was parsed',
+    'characters with a meaning in Python string formatting (% { } backslash $) are ordinary text of a changelog: lines, author '
+    'names, mail addresses, urgency comments and extra-pair values containing them are inside "every input text", and as '
+    'argument values they count as well-formed (they contain no line break, no comma in an urgency comment, no "<" ">" '
+    'beyond the author form); versions and package names given to the editing calls stay free of them',
+    'nothing is demanded of the TEXT of a warning or of the ChangelogParseError (only that lenient returned, and that strict '
+    'raised ChangelogParseError exactly when lenient warned); the fmt:* counters read the warning text for reach evidence '
+    'only.  str(ChangelogParseError) raising, or the strict error text not containing the first lenient warning, is a '
+    'non-deciding note (note:parse-error-cannot-be-printed, note:strict-error-text-lacks-first-lenient-warning)',
 ]
 ANCHORS = ['debian.changelog:Changelog.parse_changelog',
            'debian.changelog:Changelog._parse_error',
@@ -125,67 +145,127 @@ MHISTS = {'quick': 3000, 'thorough': 150000}     # histories on >= 2 blocks: old
 MIN_PAIRS = 100      # design floor is 40; the enumeration part alone yields ~200 on the current tree
 
 _Q_COUNTERS = {
-    'warn:bad-trailer': 500, 'warn:bad-urgency-value': 350, 'warn:empty-file': 10, 'warn:eof-inside-block': 2000,
-    'warn:invalid-key-value': 500, 'warn:repeated-key': 500, 'warn:unexpected-line-at-start-of-changes': 4000,
-    'warn:unexpected-line-before-first-heading': 4000, 'warn:unexpected-line-between-blocks': 4000,
-    'warn:unexpected-line-in-changes': 5000,
-    'sole:bad-trailer': 100, 'sole:bad-urgency-value': 40, 'sole:empty-file': 10, 'sole:eof-inside-block': 300,
-    'sole:invalid-key-value': 60, 'sole:repeated-key': 90, 'sole:unexpected-line-at-start-of-changes': 1700,
-    'sole:unexpected-line-before-first-heading': 1700, 'sole:unexpected-line-between-blocks': 1900,
-    'sole:unexpected-line-in-changes': 2500,
-    'strict:accepted': 6500, 'strict:raised': 14000, 'normalform:eof-block': 1500, 'normalform:rich-heading': 11000,
-    'op:new_block': 4400, 'op:add_change': 3800, 'op:set': 2600, 'op:bset': 6500,
-    'hist:from-empty': 1000, 'hist:from-parsed': 4800,
+    'warn:bad-trailer': 1900, 'warn:bad-urgency-value': 690, 'warn:empty-file': 10, 'warn:eof-inside-block': 2600,
+    'warn:invalid-key-value': 1100, 'warn:repeated-key': 780, 'warn:unexpected-line-at-start-of-changes': 4600,
+    'warn:unexpected-line-before-first-heading': 4600, 'warn:unexpected-line-between-blocks': 5400,
+    'warn:unexpected-line-in-changes': 5800, 'sole:bad-trailer': 1100, 'sole:bad-urgency-value': 230,
+    'sole:empty-file': 10, 'sole:eof-inside-block': 400, 'sole:invalid-key-value': 430, 'sole:repeated-key': 210,
+    'sole:unexpected-line-at-start-of-changes': 2000, 'sole:unexpected-line-before-first-heading': 1900,
+    'sole:unexpected-line-between-blocks': 2900, 'sole:unexpected-line-in-changes': 3200, 'strict:accepted': 8100,
+    'strict:raised': 19000, 'normalform:eof-block': 1800, 'normalform:rich-heading': 15000, 'op:new_block': 4600,
+    'op:add_change': 4000, 'op:set': 2600, 'op:bset': 8900, 'hist:from-empty': 1000, 'hist:from-parsed': 7500,
     # multi-block class (irregular construct in a non-last block; older-block edits; mid-history formats):
     # a run that never exercises it is inconclusive
-    'multi:texts': 4300, 'multi:normalform-on-2+-blocks': 3600, 'multi:warned-and-2+-blocks': 2600,
-    'multi:bad-trailer-accepted-in-non-last-block': 1000, 'multi:irregular-in-middle-block': 900,
-    'multi:family:own-trailer-one-space': 830, 'multi:family:trailer-junk': 590, 'multi:family:heading-junk': 670,
-    'multi:family:own-heading-variant': 550, 'multi:family:between': 680, 'multi:family:in-changes': 270,
-    'multi:family:layout': 250, 'multi:family:slurp': 250,
-    'op:badd': 2000, 'op:seteach': 310, 'op:fmt': 2700, 'op:fmt-block': 690, 'op:edit-after-mid-format': 5300,
-    'older:bset': 3100, 'older:badd': 1300, 'older:seteach': 300, 'older:edit-after-mid-format': 2700,
-    'older-attr:author': 330, 'older-attr:date': 650, 'older-attr:urgency': 340, 'older-attr:distributions': 340,
-    'older-attr:package': 330, 'older-attr:version': 320, 'older-attr:urgency_comment': 330, 'older-attr:other_pairs': 340,
-    'older-attr:changes': 1300,
+    'multi:texts': 4700, 'multi:normalform-on-2+-blocks': 4100, 'multi:warned-and-2+-blocks': 2900,
+    'multi:bad-trailer-accepted-in-non-last-block': 1100, 'multi:irregular-in-middle-block': 1000,
+    'multi:family:own-trailer-one-space': 850, 'multi:family:trailer-junk': 720, 'multi:family:heading-junk': 910,
+    'multi:family:own-heading-variant': 570, 'multi:family:between': 770, 'multi:family:in-changes': 260,
+    'multi:family:layout': 270, 'multi:family:slurp': 260, 'op:badd': 2000, 'op:seteach': 310, 'op:fmt': 2700,
+    'op:fmt-block': 670, 'op:edit-after-mid-format': 5300, 'older:bset': 3000, 'older:badd': 1300,
+    'older:seteach': 300, 'older:edit-after-mid-format': 2600, 'older-attr:author': 320, 'older-attr:date': 640,
+    'older-attr:urgency': 320, 'older-attr:distributions': 330, 'older-attr:package': 340, 'older-attr:version': 330,
+    'older-attr:urgency_comment': 350, 'older-attr:other_pairs': 330, 'older-attr:changes': 1300,
     'handle:index': 1300, 'handle:neg': 1000, 'handle:iter': 1000, 'handle:list': 1000,
     'hist:final-format-after-mid-format-and-edit': 2000, 'hist:final-format-after-older-block-edit': 2000,
+    # formatting look-alike class (%, {, }, backslash in reported / accepted lines and in argument values):
+    # measured on the text of the warnings the live parser emitted; a run that never has the parser report
+    # such a line is inconclusive
+    'fmt:accepted-silently:backslash': 3300, 'fmt:accepted-silently:brace': 4800,
+    'fmt:accepted-silently:percent': 5200, 'fmt:hist-arg:backslash': 1100, 'fmt:hist-arg:brace': 1700,
+    'fmt:hist-arg:percent': 1900, 'fmt:hist-start:backslash': 1400, 'fmt:hist-start:brace': 2400,
+    'fmt:hist-start:percent': 3000, 'fmt:normalform:backslash': 10000, 'fmt:normalform:brace': 16000,
+    'fmt:normalform:percent': 17000, 'fmt:reported-on-2+-blocks': 1400, 'fmt:reported-token:%': 440,
+    'fmt:reported-token:%%': 580, 'fmt:reported-token:%(x)s': 690, 'fmt:reported-token:%d': 730,
+    'fmt:reported-token:%s': 1100, 'fmt:reported-token:100%': 770, 'fmt:reported-token:backslash': 1700,
+    'fmt:reported-token:{': 790, 'fmt:reported-token:{0}': 1100, 'fmt:reported-token:}': 710,
+    'fmt:reported:bad-trailer:backslash': 230, 'fmt:reported:bad-trailer:brace': 410,
+    'fmt:reported:bad-trailer:percent': 480, 'fmt:reported:bad-urgency-value:backslash': 39,
+    'fmt:reported:bad-urgency-value:brace': 120, 'fmt:reported:bad-urgency-value:percent': 170,
+    'fmt:reported:invalid-key-value:backslash': 63, 'fmt:reported:invalid-key-value:brace': 180,
+    'fmt:reported:invalid-key-value:percent': 220, 'fmt:reported:unexpected-line-at-start-of-changes:backslash': 260,
+    'fmt:reported:unexpected-line-at-start-of-changes:brace': 670,
+    'fmt:reported:unexpected-line-at-start-of-changes:percent': 830,
+    'fmt:reported:unexpected-line-before-first-heading:backslash': 340,
+    'fmt:reported:unexpected-line-before-first-heading:brace': 770,
+    'fmt:reported:unexpected-line-before-first-heading:percent': 1000,
+    'fmt:reported:unexpected-line-between-blocks:backslash': 540,
+    'fmt:reported:unexpected-line-between-blocks:brace': 1000,
+    'fmt:reported:unexpected-line-between-blocks:percent': 1300,
+    'fmt:reported:unexpected-line-in-changes:backslash': 320, 'fmt:reported:unexpected-line-in-changes:brace': 790,
+    'fmt:reported:unexpected-line-in-changes:percent': 1000, 'fmt:site-on-text-with-special:bad-trailer': 1500,
+    'fmt:site-on-text-with-special:bad-urgency-value': 600, 'fmt:site-on-text-with-special:eof-inside-block': 1900,
+    'fmt:site-on-text-with-special:invalid-key-value': 950, 'fmt:site-on-text-with-special:repeated-key': 690,
+    'fmt:site-on-text-with-special:unexpected-line-at-start-of-changes': 3900,
+    'fmt:site-on-text-with-special:unexpected-line-before-first-heading': 3700,
+    'fmt:site-on-text-with-special:unexpected-line-between-blocks': 4500,
+    'fmt:site-on-text-with-special:unexpected-line-in-changes': 4700, 'fmt:strict-raised-on:backslash': 1000,
+    'fmt:strict-raised-on:brace': 2400, 'fmt:strict-raised-on:percent': 3300,
 }
 _T_COUNTERS = {
-    'warn:bad-trailer': 80000, 'warn:bad-urgency-value': 24000, 'warn:empty-file': 25,
-    'warn:eof-inside-block': 92000, 'warn:invalid-key-value': 38000, 'warn:repeated-key': 34000,
-    'warn:unexpected-line-at-start-of-changes': 190000, 'warn:unexpected-line-before-first-heading': 190000,
-    'warn:unexpected-line-between-blocks': 210000, 'warn:unexpected-line-in-changes': 250000,
-    'sole:bad-trailer': 47000, 'sole:bad-urgency-value': 7000, 'sole:empty-file': 25, 'sole:eof-inside-block': 14000,
-    'sole:invalid-key-value': 14000, 'sole:repeated-key': 10000, 'sole:unexpected-line-at-start-of-changes': 82000,
-    'sole:unexpected-line-before-first-heading': 84000, 'sole:unexpected-line-between-blocks': 100000,
-    'sole:unexpected-line-in-changes': 130000, 'strict:accepted': 360000, 'strict:raised': 780000,
-    'normalform:eof-block': 73000, 'normalform:rich-heading': 600000, 'op:new_block': 270000,
-    'op:add_change': 250000, 'op:set': 170000, 'op:bset': 210000, 'hist:from-empty': 71000,
-    'hist:from-parsed': 140000, 'multi:texts': 190000, 'multi:normalform-on-2+-blocks': 160000,
-    'multi:warned-and-2+-blocks': 110000, 'multi:bad-trailer-accepted-in-non-last-block': 49000,
-    'multi:irregular-in-middle-block': 44000, 'multi:family:own-trailer-one-space': 41000,
-    'multi:family:trailer-junk': 27000, 'multi:family:heading-junk': 27000,
-    'multi:family:own-heading-variant': 27000, 'multi:family:between': 27000, 'multi:family:in-changes': 13000,
-    'multi:family:layout': 13000, 'multi:family:slurp': 13000, 'op:badd': 92000, 'op:seteach': 15000,
-    'op:fmt': 100000, 'op:fmt-block': 23000, 'op:edit-after-mid-format': 220000, 'older:bset': 110000,
-    'older:badd': 61000, 'older:seteach': 15000, 'older:edit-after-mid-format': 100000, 'older-attr:author': 14000,
-    'older-attr:date': 14000, 'older-attr:urgency': 14000, 'older-attr:distributions': 14000,
-    'older-attr:package': 14000, 'older-attr:version': 14000, 'older-attr:urgency_comment': 14000,
-    'older-attr:other_pairs': 14000, 'older-attr:changes': 61000, 'handle:index': 60000, 'handle:neg': 39000,
-    'handle:iter': 38000, 'handle:list': 39000, 'hist:final-format-after-mid-format-and-edit': 72000,
-    'hist:final-format-after-older-block-edit': 79000,
+    'warn:bad-trailer': 89000, 'warn:bad-urgency-value': 33000, 'warn:empty-file': 24,
+    'warn:eof-inside-block': 100000, 'warn:invalid-key-value': 43000, 'warn:repeated-key': 34000,
+    'warn:unexpected-line-at-start-of-changes': 210000, 'warn:unexpected-line-before-first-heading': 190000,
+    'warn:unexpected-line-between-blocks': 230000, 'warn:unexpected-line-in-changes': 260000,
+    'sole:bad-trailer': 51000, 'sole:bad-urgency-value': 9600, 'sole:empty-file': 24, 'sole:eof-inside-block': 15000,
+    'sole:invalid-key-value': 14000, 'sole:repeated-key': 8800, 'sole:unexpected-line-at-start-of-changes': 84000,
+    'sole:unexpected-line-before-first-heading': 83000, 'sole:unexpected-line-between-blocks': 110000,
+    'sole:unexpected-line-in-changes': 130000, 'strict:accepted': 370000, 'strict:raised': 820000,
+    'normalform:eof-block': 83000, 'normalform:rich-heading': 640000, 'op:new_block': 290000, 'op:add_change': 260000,
+    'op:set': 180000, 'op:bset': 220000, 'hist:from-empty': 75000, 'hist:from-parsed': 150000, 'multi:texts': 200000,
+    'multi:normalform-on-2+-blocks': 170000, 'multi:warned-and-2+-blocks': 120000,
+    'multi:bad-trailer-accepted-in-non-last-block': 53000, 'multi:irregular-in-middle-block': 47000,
+    'multi:family:own-trailer-one-space': 43000, 'multi:family:trailer-junk': 28000,
+    'multi:family:heading-junk': 28000, 'multi:family:own-heading-variant': 28000, 'multi:family:between': 28000,
+    'multi:family:in-changes': 14000, 'multi:family:layout': 14000, 'multi:family:slurp': 14000, 'op:badd': 96000,
+    'op:seteach': 16000, 'op:fmt': 100000, 'op:fmt-block': 24000, 'op:edit-after-mid-format': 230000,
+    'older:bset': 120000, 'older:badd': 65000, 'older:seteach': 15000, 'older:edit-after-mid-format': 100000,
+    'older-attr:author': 14000, 'older-attr:date': 15000, 'older-attr:urgency': 15000,
+    'older-attr:distributions': 14000, 'older-attr:package': 14000, 'older-attr:version': 14000,
+    'older-attr:urgency_comment': 15000, 'older-attr:other_pairs': 15000, 'older-attr:changes': 65000,
+    'handle:index': 63000, 'handle:neg': 40000, 'handle:iter': 40000, 'handle:list': 41000,
+    'hist:final-format-after-mid-format-and-edit': 75000, 'hist:final-format-after-older-block-edit': 83000,
+    # formatting look-alike class (%, {, }, backslash in reported / accepted lines and in argument values):
+    # measured on the text of the warnings the live parser emitted; a run that never has the parser report
+    # such a line is inconclusive
+    'fmt:accepted-silently:backslash': 160000, 'fmt:accepted-silently:brace': 230000,
+    'fmt:accepted-silently:percent': 250000, 'fmt:hist-arg:backslash': 77000, 'fmt:hist-arg:brace': 110000,
+    'fmt:hist-arg:percent': 120000, 'fmt:hist-start:backslash': 70000, 'fmt:hist-start:brace': 97000,
+    'fmt:hist-start:percent': 100000, 'fmt:normalform:backslash': 540000, 'fmt:normalform:brace': 780000,
+    'fmt:normalform:percent': 830000, 'fmt:reported-on-2+-blocks': 61000, 'fmt:reported-token:%': 14000,
+    'fmt:reported-token:%%': 24000, 'fmt:reported-token:%(x)s': 29000, 'fmt:reported-token:%d': 30000,
+    'fmt:reported-token:%s': 54000, 'fmt:reported-token:100%': 34000, 'fmt:reported-token:backslash': 82000,
+    'fmt:reported-token:{': 34000, 'fmt:reported-token:{0}': 54000, 'fmt:reported-token:}': 29000,
+    'fmt:reported:bad-trailer:backslash': 11000, 'fmt:reported:bad-trailer:brace': 19000,
+    'fmt:reported:bad-trailer:percent': 23000, 'fmt:reported:bad-urgency-value:backslash': 2400,
+    'fmt:reported:bad-urgency-value:brace': 6200, 'fmt:reported:bad-urgency-value:percent': 7600,
+    'fmt:reported:invalid-key-value:backslash': 2200, 'fmt:reported:invalid-key-value:brace': 5800,
+    'fmt:reported:invalid-key-value:percent': 7200,
+    'fmt:reported:unexpected-line-at-start-of-changes:backslash': 12000,
+    'fmt:reported:unexpected-line-at-start-of-changes:brace': 31000,
+    'fmt:reported:unexpected-line-at-start-of-changes:percent': 38000,
+    'fmt:reported:unexpected-line-before-first-heading:backslash': 15000,
+    'fmt:reported:unexpected-line-before-first-heading:brace': 31000,
+    'fmt:reported:unexpected-line-before-first-heading:percent': 38000,
+    'fmt:reported:unexpected-line-between-blocks:backslash': 25000,
+    'fmt:reported:unexpected-line-between-blocks:brace': 48000,
+    'fmt:reported:unexpected-line-between-blocks:percent': 58000,
+    'fmt:reported:unexpected-line-in-changes:backslash': 14000,
+    'fmt:reported:unexpected-line-in-changes:brace': 36000, 'fmt:reported:unexpected-line-in-changes:percent': 44000,
+    'fmt:site-on-text-with-special:bad-trailer': 75000, 'fmt:site-on-text-with-special:bad-urgency-value': 29000,
+    'fmt:site-on-text-with-special:eof-inside-block': 80000, 'fmt:site-on-text-with-special:invalid-key-value': 38000,
+    'fmt:site-on-text-with-special:repeated-key': 31000,
+    'fmt:site-on-text-with-special:unexpected-line-at-start-of-changes': 180000,
+    'fmt:site-on-text-with-special:unexpected-line-before-first-heading': 160000,
+    'fmt:site-on-text-with-special:unexpected-line-between-blocks': 200000,
+    'fmt:site-on-text-with-special:unexpected-line-in-changes': 220000, 'fmt:strict-raised-on:backslash': 43000,
+    'fmt:strict-raised-on:brace': 99000, 'fmt:strict-raised-on:percent': 120000,
 }
 FLOORS = {
-    'quick': {'nontrivial': 13000,
-              'monitors': {'M.total': 25000, 'M.strict': 25000, 'M.normalform': 24500, 'M.history': 5200,
-                           'M.history-mid': 2300, 'M.model': 23000, 'M.blockwise': 63000,
-                           'P.state-line': 430000},
+    'quick': {'nontrivial': 14000,
+              'monitors': {'M.total': 27000, 'M.strict': 27000, 'M.normalform': 26000, 'M.history': 7600, 'M.history-mid': 2300, 'M.model': 26000, 'M.blockwise': 70000, 'P.state-line': 460000},
               'counters': _Q_COUNTERS},
-    'thorough': {'nontrivial': 600000,
-                 'monitors': {'M.total': 1150000, 'M.strict': 1150000, 'M.normalform': 1120000, 'M.history': 190000,
-                              'M.history-mid': 87000, 'M.model': 1150000, 'M.blockwise': 2800000,
-                              'P.state-line': 20000000},
+    'thorough': {'nontrivial': 630000,
+                 'monitors': {'M.total': 1200000, 'M.strict': 1200000, 'M.normalform': 1100000, 'M.history': 200000, 'M.history-mid': 91000, 'M.model': 1200000, 'M.blockwise': 2900000, 'P.state-line': 20000000},
                  'counters': _T_COUNTERS},
 }
 
@@ -766,12 +846,38 @@ def check_text(ctx, text, aea, info=None):
         ctx.count('warn:' + m)
     if len(sites) == 1:       # the text has problems of one kind only: strict mode must raise at exactly that site
         ctx.count('sole:' + min(sites))
+    # reach of the class "a REPORTED line contains a character that is special in Python string formatting":
+    # measured on what the live parser put into its warnings (evidence / floors only, never a verdict)
+    text_kinds = g.fmt_kinds(text)
+    reported = set()
+    for x in w:
+        ks = g.fmt_kinds(x)
+        if ks:
+            site = warn_site(x)
+            for k in ks:
+                reported.add('fmt:reported:%s:%s' % (site, k))
+            for t in g.fmt_tokens(x):
+                reported.add('fmt:reported-token:' + t)
+    for name in reported:
+        ctx.count(name)
+    if text_kinds:
+        for m in sites:
+            ctx.count('fmt:site-on-text-with-special:' + m)
     # --- strict raises <=> lenient warned
     raised, sw = False, []
     try:
         _c, sw = _parse(text, aea, strict=True)
-    except cl.ChangelogParseError:
+    except cl.ChangelogParseError as e:
         raised = True
+        try:
+            shown = str(e)
+        except Exception as e2:     # the statement demands the raise, not that the error can be printed
+            shown = ''
+            _note(ctx, 'parse-error-cannot-be-printed', '%s from str(ChangelogParseError) on %r' % (type(e2).__name__, text))
+        for k in g.fmt_kinds(shown):
+            ctx.count('fmt:strict-raised-on:' + k)
+        if w and shown and w[0] not in shown:       # e.g. '%%' collapsed to '%' on one path only: not in the statement
+            _note(ctx, 'strict-error-text-lacks-first-lenient-warning', 'lenient warned %r, strict error reads %r' % (w[0], shown))
     except Exception as e:
         ctx.violation('strict-raises-other-than-parse-error/%s' % type(e).__name__, '%r on %r' % (e, text), small)
         return warned
@@ -789,12 +895,16 @@ def check_text(ctx, text, aea, info=None):
     # --- normal form
     evaluated = normal_form(ctx, c, aea, small, 'M.normalform')
     if evaluated:
+        for k in text_kinds:
+            ctx.count('fmt:normalform:' + k)
+            if not warned:
+                ctx.count('fmt:accepted-silently:' + k)
         if len(c) and any(b.urgency_comment or b.other_pairs for b in c):
             ctx.count('normalform:rich-heading')
         if 'eof-inside-block' in sites:
             ctx.count('normalform:eof-block')
     if info is not None:
-        info.update(nblocks=len(c), sites=sites, evaluated=evaluated)
+        info.update(nblocks=len(c), sites=sites, evaluated=evaluated, fmt_reported=bool(reported))
     return warned
 
 
@@ -996,6 +1106,21 @@ def _start_changelog(case, aea):
     return _parse(case['start'], aea)
 
 
+def _strings(obj):
+    """All str leaves of a JSON-able value (dict keys included)."""
+    if isinstance(obj, str):
+        yield obj
+    elif isinstance(obj, dict):
+        for k, v in obj.items():
+            yield k
+            for x in _strings(v):
+                yield x
+    elif isinstance(obj, (list, tuple)):
+        for v in obj:
+            for x in _strings(v):
+                yield x
+
+
 def _note(ctx, slug, msg):
     """Non-deciding observation (counter + up to 5 samples in the evidence): behaviour a maintainer would want to
     know about but on which the statement is silent, so it never becomes a verdict."""
@@ -1048,6 +1173,8 @@ def run_case(ctx, case):
                         ctx.count('multi:bad-trailer-accepted-in-non-last-block')
                     if info['nblocks'] >= 3 and 0 < irr.get('k', 0):
                         ctx.count('multi:irregular-in-middle-block')
+                    if info.get('fmt_reported'):
+                        ctx.count('fmt:reported-on-2+-blocks')
         off_path = any(g.line_class(l) not in ('heading-ok', 'heading-rich', 'blank-ish', 'change-ok', 'trailer-ok')
                        for l in text.split('\n'))
         if warned or off_path:
@@ -1071,6 +1198,10 @@ def run_case(ctx, case):
         if st['fmt']:
             twin_check(ctx, c, case, aea)
         if evaluated:
+            for k in sorted(set(k for op in case['ops'] for x in _strings(op[1:]) for k in g.fmt_kinds(x))):
+                ctx.count('fmt:hist-arg:' + k)        # an argument of an editing call carried the character
+            for k in g.fmt_kinds(case.get('start') or ''):
+                ctx.count('fmt:hist-start:' + k)
             if st['edit-after-fmt']:
                 ctx.count('hist:final-format-after-mid-format-and-edit')
             if st['older'] and len(c) >= 2:
